@@ -50,13 +50,18 @@ func (d *ideal) grow() {
 	}
 	d.buf, d.head = nb, 0
 }
-func (d *ideal) pushBack(v int)  { d.grow(); d.buf[(d.head+d.n)%len(d.buf)] = v; d.n++ }
-func (d *ideal) pushFront(v int) { d.grow(); d.head = (d.head - 1 + len(d.buf)) % len(d.buf); d.buf[d.head] = v; d.n++ }
-func (d *ideal) front() int      { return d.buf[d.head] }
-func (d *ideal) back() int       { return d.buf[(d.head+d.n-1)%len(d.buf)] }
-func (d *ideal) popFront() int   { v := d.front(); d.head = (d.head + 1) % len(d.buf); d.n--; return v }
-func (d *ideal) popBack() int    { v := d.back(); d.n--; return v }
-func (d *ideal) clear()          { d.head, d.n = 0, 0 }
+func (d *ideal) pushBack(v int) { d.grow(); d.buf[(d.head+d.n)%len(d.buf)] = v; d.n++ }
+func (d *ideal) pushFront(v int) {
+	d.grow()
+	d.head = (d.head - 1 + len(d.buf)) % len(d.buf)
+	d.buf[d.head] = v
+	d.n++
+}
+func (d *ideal) front() int    { return d.buf[d.head] }
+func (d *ideal) back() int     { return d.buf[(d.head+d.n-1)%len(d.buf)] }
+func (d *ideal) popFront() int { v := d.front(); d.head = (d.head + 1) % len(d.buf); d.n--; return v }
+func (d *ideal) popBack() int  { v := d.back(); d.n--; return v }
+func (d *ideal) clear()        { d.head, d.n = 0, 0 }
 func (d *ideal) String() string {
 	if d.n > 12 {
 		return fmt.Sprintf("(%d items, head %d, tail %d)", d.n, d.front(), d.back())
